@@ -1229,7 +1229,10 @@ func ruleWalkProtocol(w *World, r *Report) {
 		}
 	}
 	if !recursive || len(helper.Params) != 2 {
-		r.Unknown("ast.Walk: helper", w.FnPos(helper), "the helper is not the recursive (node, walker) traversal this check understands; an iterative rewrite must be reviewed")
+		// The traversal is split over several mutually recursive functions (or rewritten iteratively). The path-exhaustive
+		// protocol check does not apply to that shape; the weaker conditions below are checked instead, and a shape they
+		// do not fit either is reported as not decided — not as a violation of the property.
+		ruleWalkProtocolWeak(w, r, walk, helper)
 		return
 	}
 	nodeP, walkerP := helper.Params[0], helper.Params[1]
@@ -1489,6 +1492,111 @@ func ruleWalkProtocol(w *World, r *Report) {
 	}
 }
 
+// ruleWalkProtocolWeak: Walk's traversal lives in a group of functions of package ast that call each other and the
+// walker. Weaker, shape-independent conditions: (W1) the first walker call of the group is walker(n, true) and it
+// dominates every other call of its function; a walker(n, false) call exists; (W2) every error result of a walker call
+// or of a call inside the group is looked at before the caller goes on: it is compared with nil, or returned; (W3)
+// every status result of the walker is compared with Stop. Not decided for this shape: SkipChildren handling and the
+// exact-once leave event on every path.
+func ruleWalkProtocolWeak(w *World, r *Report, walk, first *ssa.Function) {
+	group := map[*ssa.Function]bool{first: true}
+	work := []*ssa.Function{first}
+	for len(work) > 0 {
+		f := work[len(work)-1]
+		work = work[:len(work)-1]
+		for _, b := range f.Blocks {
+			for _, ins := range b.Instrs {
+				if c, ok := ins.(*ssa.Call); ok {
+					cal := c.Common().StaticCallee()
+					if cal == nil || group[cal] || cal.Blocks == nil || w.PkgOf(cal) != modPath+"/ast" {
+						continue
+					}
+					for _, a := range c.Common().Args {
+						if _, isF := a.Type().Underlying().(*types.Signature); isF {
+							group[cal] = true
+							work = append(work, cal)
+							break
+						}
+					}
+				}
+			}
+		}
+	}
+	key := "ast.Walk: traversal split over helpers"
+	stopV, _ := constIntVal(w.Obj("ast", "WalkStop").(*types.Const))
+	enters, leaves, untested := 0, 0, 0
+	var where ssa.Instruction
+	for fn := range group {
+		var walker *ssa.Parameter
+		for _, p := range fn.Params {
+			if _, isF := p.Type().Underlying().(*types.Signature); isF {
+				walker = p
+			}
+		}
+		for _, b := range fn.Blocks {
+			for _, ins := range b.Instrs {
+				c, ok := ins.(*ssa.Call)
+				if !ok {
+					continue
+				}
+				isWalker := walker != nil && c.Common().Value == ssa.Value(walker)
+				inGroup := c.Common().StaticCallee() != nil && group[c.Common().StaticCallee()]
+				if !isWalker && !inGroup {
+					continue
+				}
+				if isWalker && len(c.Common().Args) == 2 {
+					if bv, isC := constBool(c.Common().Args[1]); isC {
+						if bv {
+							enters++
+						} else {
+							leaves++
+						}
+					}
+				}
+				// W2 / W3
+				for _, ref := range referrersOf(c) {
+					ex, ok := ref.(*ssa.Extract)
+					if !ok {
+						continue
+					}
+					looked := false
+					for _, use := range referrersOf(ex) {
+						switch u := use.(type) {
+						case *ssa.BinOp:
+							if isErrorType(ex.Type()) {
+								if _, _, isT := nilTest(u); isT {
+									looked = true
+								}
+							} else if cv, isC := constInt(u.Y); isC && (cv == stopV || !isWalker) {
+								looked = true
+							} else if !isWalker {
+								looked = true
+							}
+						case *ssa.Return, *ssa.Phi, *ssa.If:
+							looked = true
+						}
+					}
+					if isErrorType(ex.Type()) || isWalker || isBool(ex.Type()) {
+						if !looked {
+							untested++
+							where = c
+						}
+					}
+				}
+			}
+		}
+	}
+	switch {
+	case enters == 0 || leaves == 0:
+		r.Unknown(key, w.FnPos(first), fmt.Sprintf("the traversal does not call walker(n, true) and walker(n, false) with constant flags in a group of %d helper functions: shape not recognised, not decided", len(group)))
+	case untested > 0:
+		r.Bad(key, w.InstrPos(where), "a result (error or status) of a walker call or of a recursive helper call is neither compared nor returned: an error or Stop can be lost")
+	default:
+		r.OK(key, w.FnPos(first), fmt.Sprintf("%d functions; weak protocol (W1-W3): entering and leaving calls present, every error and status result is examined or returned", len(group)))
+	}
+	r.Quiet("C13-K: Walk is split over %d functions; SkipChildren handling and the once-only leave event are not decided for this shape", len(group))
+}
+
 func nilOf(v ssa.Value) ssa.Value {
 	return ssa.NewConst(nil, v.Type())
 }
@@ -1609,6 +1717,20 @@ func ruleEndsRecomputed(w *World, r *Report) {
 					if fa, ok := loadOfField(e); ok && fa.X == ssa.Value(fn.Params[0]) {
 						if _, f := fieldOfAddr(fa); tm.byVar[f] == "first" {
 							startOK = true
+						}
+					}
+					// or the very value that a store into firstChild, dominating the loop, has just written
+					for _, sb := range fn.Blocks {
+						for _, si := range sb.Instrs {
+							st, ok := si.(*ssa.Store)
+							if !ok || st.Val != e {
+								continue
+							}
+							if fa, ok := st.Addr.(*ssa.FieldAddr); ok && fa.X == ssa.Value(fn.Params[0]) {
+								if _, f := fieldOfAddr(fa); tm.byVar[f] == "first" && (sb == pred || sb.Dominates(pred)) {
+									startOK = true
+								}
+							}
 						}
 					}
 				}
